@@ -466,20 +466,52 @@ Proof.
   intros H Hn. apply has_dup_false_NoDup in Hn. congruence.
 Qed.
 
+Definition run_indices (ths : list thread) (n0 : N) (cached : bool) (sched : list nat)
+  : option (list N) :=
+  match exec ths (init ths n0 cached) sched with Some s => Some (indices s) | None => None end.
+
 Theorem unsafe_two_unheld n0 cached :
-  exists s, exec [unheld1; unheld1] (init [unheld1; unheld1] n0 cached) witness_two_unheld = Some s
-            /\ indices s = [n0; n0].
-Proof. destruct cached; eexists; split; reflexivity. Qed.
+  run_indices [unheld1; unheld1] n0 cached witness_two_unheld = Some [n0; n0].
+Proof. destruct cached, n0; vm_compute; reflexivity. Qed.
 
 Theorem unsafe_held_then_unheld n0 cached :
-  exists s, exec [held1; unheld1] (init [held1; unheld1] n0 cached) witness_held_then_unheld = Some s
-            /\ indices s = [n0; n0].
-Proof. destruct cached; eexists; split; reflexivity. Qed.
+  run_indices [held1; unheld1] n0 cached witness_held_then_unheld = Some [n0; n0].
+Proof. destruct cached, n0; vm_compute; reflexivity. Qed.
 
 Theorem unsafe_unheld_then_held n0 cached :
-  exists s, exec [unheld1; held1] (init [unheld1; held1] n0 cached) witness_unheld_then_held = Some s
-            /\ indices s = [n0; n0].
-Proof. destruct cached; eexists; split; reflexivity. Qed.
+  run_indices [unheld1; held1] n0 cached witness_unheld_then_held = Some [n0; n0].
+Proof. destruct cached, n0; vm_compute; reflexivity. Qed.
 
 Lemma two_equal_not_NoDup (a : N) : ~ NoDup [a; a].
 Proof. intros H. inv H. apply H2. left. reflexivity. Qed.
+
+(** In the form used by the property file: a reachable state with a duplicate. *)
+Theorem unsafe_without_mutex n0 cached :
+  exists sched s,
+    exec [unheld1; unheld1] (init [unheld1; unheld1] n0 cached) sched = Some s /\
+    ~ NoDup (indices s).
+Proof.
+  exists witness_two_unheld.
+  pose proof (unsafe_two_unheld n0 cached) as H. unfold run_indices in H.
+  destruct (exec _ _ _) as [s|]; [|discriminate]. exists s. split; [reflexivity|].
+  inv H. rewrite H1. apply two_equal_not_NoDup.
+Qed.
+
+Theorem unsafe_one_site_without_mutex n0 cached :
+  (exists sched s,
+    exec [held1; unheld1] (init [held1; unheld1] n0 cached) sched = Some s /\
+    ~ NoDup (indices s)) /\
+  (exists sched s,
+    exec [unheld1; held1] (init [unheld1; held1] n0 cached) sched = Some s /\
+    ~ NoDup (indices s)).
+Proof.
+  split.
+  - exists witness_held_then_unheld.
+    pose proof (unsafe_held_then_unheld n0 cached) as H. unfold run_indices in H.
+    destruct (exec _ _ _) as [s|]; [|discriminate]. exists s. split; [reflexivity|].
+    inv H. rewrite H1. apply two_equal_not_NoDup.
+  - exists witness_unheld_then_held.
+    pose proof (unsafe_unheld_then_held n0 cached) as H. unfold run_indices in H.
+    destruct (exec _ _ _) as [s|]; [|discriminate]. exists s. split; [reflexivity|].
+    inv H. rewrite H1. apply two_equal_not_NoDup.
+Qed.
